@@ -150,6 +150,10 @@ def schema_bisim(a, b):
     NULL = {"type": "null"}
 
     def view(x, defs, depth=0):
+        return [({**{k: w for k, w in v.items() if k != "const"}, "enum": [v["const"]]} if isinstance(v, dict) and "const" in v and "enum" not in v else v)
+                for v in view_(x, defs, depth)]  # a single value is rendered as const, or as a one-element enum once merged with null
+
+    def view_(x, defs, depth=0):
         """union view of a dereferenced schema: list of alternatives, none of which is itself a union.
         Sibling keywords of a union are distributed over its non-null alternatives."""
         if depth > 20 or not isinstance(x, dict):
